@@ -4,7 +4,7 @@ From Coq Require Import List ZArith NArith Bool.
 From Coq.Strings Require Import Byte.
 From L4.gen Require Import Consts.
 From L4.model Require Import GoBase CodecBase CodecWireGuard CodecWinbox CodecRdp.
-From L4.proofs Require Import CodecWireGuardProofs CodecRdpCodecProofs.
+From L4.proofs Require Import CodecWireGuardProofs CodecRdpCodecProofs CodecWinboxProofs CodecWinboxCodecProofs.
 Import ListNotations.
 Local Open Scope nat_scope.
 
@@ -23,6 +23,29 @@ Theorem C18_wg_transport_from_to : forall x, transport_wf x -> transport_from_by
 Proof. exact transport_from_to. Qed.
 Theorem C18_wg_transport_rejects_wrong_length : forall b, length b < wg_transport_hdr -> transport_from_bytes b = Err.
 Proof. exact transport_rejects_wrong_length. Qed.
+
+(* ---- Winbox MessageAuth (FromBytes = FromChunks after chunking, ToBytes = ToChunks + framing) ---- *)
+Theorem C18_winbox_auth_to_from : forall b x, auth_from_bytes b = Ok x -> auth_to_bytes x = b.
+Proof. exact auth_to_from. Qed.
+Theorem C18_winbox_auth_from_to : forall x, auth_wf x -> auth_from_bytes (auth_to_bytes x) = Ok x.
+Proof. exact auth_from_to. Qed.
+(* the length is carried by the chunk headers: the only length accepted for a message is that of its encoding,
+   anything shorter than the minimum is rejected, an accepted message followed by more bytes is not that message *)
+Theorem C18_winbox_auth_rejects_wrong_length : forall b x, length b <> length (auth_to_bytes x) -> auth_from_bytes b <> Ok x.
+Proof. exact auth_rejects_wrong_length. Qed.
+Theorem C18_winbox_auth_rejects_short : forall b, length b < wb_auth_min -> auth_from_bytes b = Err.
+Proof. exact auth_rejects_short. Qed.
+Theorem C18_winbox_auth_rejects_extension : forall b x t, auth_from_bytes b = Ok x -> t <> [] -> auth_from_bytes (b ++ t) <> Ok x.
+Proof. exact auth_rejects_extension. Qed.
+Theorem C18_winbox_auth_accepted_is_wf : forall b x, auth_from_bytes b = Ok x -> auth_wf x.
+Proof. exact auth_from_bytes_wf. Qed.
+(* the chunk level: what FromBytes hands to FromChunks re-serialises to the input, and ToChunks output parses back *)
+Theorem C18_winbox_chunks_to_from : forall fuel first rest cs, rest <> [] -> length rest <= fuel ->
+  chunks_from fuel first rest = Ok cs -> good first cs /\ chunks_to_bytes cs = rest.
+Proof. exact chunks_from_good. Qed.
+Theorem C18_winbox_chunks_from_to : forall fuel first cs, good first cs -> length (chunks_to_bytes cs) <= fuel ->
+  chunks_from fuel first (chunks_to_bytes cs) = Ok cs.
+Proof. exact chunks_from_to_bytes. Qed.
 
 (* ---- RDP ---- *)
 Theorem C18_rdp_tpkt_to_from : forall b x, tpkt_from_bytes b = Ok x -> tpkt_to_bytes x = b.
@@ -74,6 +97,13 @@ Example C18_wg_nonvacuous :
   exists t, transport_from_bytes (repeat x07 33) = Ok t /\ length (mt_content t) = 17.
 Proof. cbv zeta. split; [vm_compute; repeat split|]. split; [vm_compute; reflexivity|]. split; [vm_compute; reflexivity|].
   eexists. split; vm_compute; reflexivity. Qed.
+Example C18_winbox_nonvacuous :
+  let one := {| ma_parity := x01; ma_key := repeat x07 32; ma_user := repeat x61 221 |} in      (* payload 255: one full chunk, 257 bytes *)
+  let two := {| ma_parity := x00; ma_key := repeat x07 32; ma_user := repeat x61 230 ++ [x2b; x72] |} in   (* two chunks, +r *)
+  auth_wf one /\ auth_wf two /\ length (auth_to_bytes one) = 257 /\ length (auth_to_bytes two) = 270 /\
+  auth_from_bytes (auth_to_bytes one) = Ok one /\ auth_from_bytes (auth_to_bytes two) = Ok two /\
+  auth_from_bytes (auth_to_bytes two ++ [x00]) = Err /\ auth_from_bytes (auth_to_bytes one ++ [x01; xff; x00]) = Err.
+Proof. cbv zeta. split; [vm_compute; repeat split; discriminate|]. split; [vm_compute; repeat split; discriminate|]. vm_compute. repeat split. Qed.
 Example C18_rdp_nonvacuous :
   tpkt_from_bytes [x03; x00; x00; x13] = Ok {| tp_version := 3; tp_reserved := 0; tp_length := 19 |} /\
   tpkt_from_bytes [x03; x00; x00; x13; x00] = Err /\ tpkt_from_bytes [x03; x00; x00] = Err /\
@@ -87,6 +117,15 @@ Print Assumptions C18_wg_initiation_rejects_wrong_length.
 Print Assumptions C18_wg_transport_to_from.
 Print Assumptions C18_wg_transport_from_to.
 Print Assumptions C18_wg_transport_rejects_wrong_length.
+Print Assumptions C18_winbox_auth_to_from.
+Print Assumptions C18_winbox_auth_from_to.
+Print Assumptions C18_winbox_auth_rejects_wrong_length.
+Print Assumptions C18_winbox_auth_rejects_short.
+Print Assumptions C18_winbox_auth_rejects_extension.
+Print Assumptions C18_winbox_auth_accepted_is_wf.
+Print Assumptions C18_winbox_chunks_to_from.
+Print Assumptions C18_winbox_chunks_from_to.
+Print Assumptions C18_winbox_nonvacuous.
 Print Assumptions C18_rdp_tpkt_to_from.
 Print Assumptions C18_rdp_tpkt_from_to.
 Print Assumptions C18_rdp_tpkt_rejects_wrong_length.
